@@ -270,7 +270,7 @@ theorem image_stack_reads_back (st : Stack) (hst : StackOK st) (base : V3) (sp :
   have hvp := volumePositions_line_strict st.rowCos st.colCos base sp hsp hst.unitN es emin emax hemin hemax hb
     hcomplete hlt st.hint hhint true (Or.inl rfl)
   obtain ⟨emin', hemin', emax', hemax', hb', hok, _⟩ :=
-    getVolumeStack_line_gen false .image st hst base sp hsp es hes hpos
+    getVolumeStack_line_gen false .image st hst (linePos (normal st.rowCos st.colCos) base sp) sp es hes hpos
       ⟨emin, hemin, fun e he => (hb e he).1, hvp⟩ rows cols
   have e1 : emin' = emin := by
     have := (hb' emin hemin).1; have := (hb emin' hemin').1; omega
@@ -293,9 +293,42 @@ theorem image_stack_reads_back (st : Stack) (hst : StackOK st) (base : V3) (sp :
       omega
   · intro i hi r c
     simp only [aff_shift_zero]
-    rw [lineAff_apply]
+    have : lineAffP st (linePos (normal st.rowCos st.colCos) base sp) sp emin' = lineAff st base sp emin' := rfl
+    rw [this, lineAff_apply]
     have : emin' + (es[i] - emin') = es[i] := by ring
     rw [this]
+
+/-- **"Up to decimal-string precision": the placement survives rounding of the recorded values.**  Recorded
+positions `P e` within `sp/1000` of the ideal `base + (e·sp)·n` (error depending on the plane only), recorded
+SpacingBetweenSlices `sp'` within 0.1 % of `sp`, at most 101 slots: the frames still go to the slots `e − min e`,
+the volume still spans `max e − min e + 1` slots, and the affine is the one the recorded attributes describe
+(translation = recorded position of the first plane, columns = recorded spacings × recorded directions). -/
+theorem placement_robust_to_rounding (k : Kind) (st : Stack) (hst : StackOK st) (base : V3) (sp : Rat) (hsp : 0 < sp)
+    (P : Int → V3) (hP : Pert (normal st.rowCos st.colCos) base sp P) (sp' : Rat) (h1 : sp * (999 / 1000) ≤ sp')
+    (h2 : sp' ≤ sp * (1001 / 1000)) (es : List Int) (hes : es ≠ []) (hspan : ∀ e ∈ es, ∀ e' ∈ es, e' - e ≤ 100)
+    (hpos : st.pos = es.map P) (hhint : st.hint = some sp') (rows cols : Int) (hr : 1 ≤ rows) (hc : 1 ≤ cols) :
+    ∃ emin ∈ es, ∃ emax ∈ es, (∀ e ∈ es, emin ≤ e ∧ e ≤ emax) ∧ ∃ out,
+      getVolumeStack k st rows cols true ({} : Request) = .ok out ∧ out.n = emax - emin + 1 ∧
+      out.frames = es.zipIdx.map (fun (p : Int × Nat) => (p.2, p.1 - emin)) ∧
+      out.aff = lineAffP st P sp' emin := by
+  obtain ⟨emin, hemin, emax, hemax, hb, hok, _⟩ :=
+    getVolumeStack_line_gen true k st hst P sp' es hes hpos
+      (by rw [hhint]; exact volumePositions_robust st.rowCos st.colCos base sp hsp hst.unitN P hP sp' h1 h2 es hes hspan)
+      rows cols
+  have hN : 1 ≤ emax - emin + 1 := by have := hb emax hemax; omega
+  have h := hok ({} : Request) 0 _ 0 rows 0 cols (sliceSpec_default _ hN false) (sliceSpec_default rows hr false)
+    (sliceSpec_default cols hc false)
+  refine ⟨emin, hemin, emax, hemax, hb, _, h, by simp, ?_, by simp [aff_shift_zero]⟩
+  simp only [sub_zero]
+  rw [framePositions_all]
+  · rw [List.zipIdx_map, List.map_map]
+    apply List.map_congr_left
+    intro p _
+    rfl
+  · intro v hv
+    obtain ⟨e, he, rfl⟩ := List.mem_map.mp hv
+    have := hb e he
+    omega
 
 /-! ## 3. Sub-volume requests mean the Python slice (translated helpers T2, T3) -/
 
@@ -502,6 +535,13 @@ example : ([2, 0, 1, 3] : List Int).Nodup ∧ (∀ z : Int, 0 ≤ z → z ≤ 3 
   intro z h0 h3
   have : z = 0 ∨ z = 1 ∨ z = 2 ∨ z = 3 := by omega
   rcases this with rfl | rfl | rfl | rfl <;> simp
+
+/-- `placement_robust_to_rounding`: a non-zero rounding error satisfying the hypothesis -/
+example (n base : V3) (sp : Rat) (hsp : 0 < sp) :
+    Pert n base sp (fun e => add (linePos n base sp e) ⟨sp / 2000, -(sp / 2000), 0⟩) := by
+  refine ⟨fun e => ⟨⟨sp / 2000, -(sp / 2000), 0⟩, rfl, ?_⟩⟩
+  simp only [dot]
+  nlinarith [mul_pos hsp hsp]
 
 /-- concrete requests: accepted ones mean the Python slice, the two repaired defects stay repaired -/
 example : stdSliceIndices (some 1) (some 3) 5 false = .ok (0, 2) := by decide
